@@ -7,6 +7,7 @@ pipelines `$.f(...).g(...)...` (<= 4 stages) are evaluated three ways on the sam
   model   the compiled Lean model (Yaql.Model.Seq / SeqRun) the theorems are about.
 Oracle (failing input): real differs from ref (and the model does not side with real).
 Mismatch (tie broken): model differs from real although ref agrees with real, or ref is the odd one."""
+import copy
 import json
 import multiprocessing
 import os
@@ -423,10 +424,16 @@ def evaluate_case(value, ops, model_replies, binder=None, obs=None, members=None
     text = case_text(ops, binder, obs)
     info = dict(text=text, real=None, ref=None, model=None, runs=[])
     failure = None
+    handed_out = []                 # (member, result, snapshot): a result belongs to the host once it is handed out
     for i, (m, mr) in enumerate(zip(members, model_replies)):
         opts = member_opts(m[0], m[1])
         real3 = run_real(text, lambda: prepare(value, opts)[0], m)
         real, mutated = real3[:2], real3[2]
+        if real[0] == 'ok':
+            try:
+                handed_out.append((m, real[1], copy.deepcopy(real[1])))
+            except Exception:       # noqa
+                pass
         _, refdata, _ = prepare(value, opts)
         ref = run_ref(refdata, ops, binder, obs, opts)
         if ref[0] == 'big':
@@ -455,6 +462,12 @@ def evaluate_case(value, ops, model_replies, binder=None, obs=None, members=None
                 text, value, via, show(real), show_model(mr), show(ref)))
         if failure is not None:
             info.update(real=real, ref=ref, model=mr)
+    if failure is None:
+        for m, r, snap in handed_out[:-1]:
+            if not same_host(r, snap):
+                failure = ('oracle', '%s on %r: the result handed out through %s (%r) was changed by a later evaluation of the same '
+                           'text in the family (now %r)' % (text, value, show_member(m), snap, r))
+                break
     return failure, info
 
 
@@ -764,7 +777,7 @@ def run(env, res):
         if f:
             res.fail(f[0], failure_key(ops, info, obs), f[1], replay_of(value, ops, binder, obs, members))
         return res
-    n_cases = 300 if tier == 'quick' else 10000
+    n_cases = 300 if tier == 'quick' else 3000      # (x 2.25 evaluations per case: ~830 000 evaluations thorough)
     jobs = [(f, n_cases, env['seed'], use_model) for f in FUNCTIONS]
     nproc = min(len(jobs), max(1, (os.cpu_count() or 2) - 1), int(os.environ.get('VERIF_NPROC') or (8 if tier == 'quick' else 12)))
     t0 = time.time()
